@@ -84,7 +84,19 @@ def rule_a(rep: Report, idx: SourceIndex) -> None:
 		r.skip('reader-break-tag', bt.where, '__break_tag no longer has the endswith("]") / split("[") / int(...) / (elem, -1) shape')
 	di = pm.func('EntryPath.de_identify')
 	pat = next((const_str(n.args[0]) for n in ast.walk(di.node) if isinstance(n, ast.Call) and attr_chain(n.func) == 're.sub' and n.args), None)
+	if pat is None:
+		# a precompiled pattern: `<NAME>.sub(...)` with NAME = re.compile(<const>) at module or class level, or `re.compile(<const>).sub(...)`
+		for n in ast.walk(di.node):
+			if isinstance(n, ast.Call) and isinstance(n.func, ast.Attribute) and n.func.attr == 'sub':
+				src = n.func.value
+				if isinstance(src, (ast.Name, ast.Attribute)):
+					nm = src.id if isinstance(src, ast.Name) else src.attr
+					src = next((a.value for a in ast.walk(pm.tree) if isinstance(a, (ast.Assign, ast.AnnAssign)) and a.value is not None and any(isinstance(t, ast.Name) and t.id == nm for t in (a.targets if isinstance(a, ast.Assign) else [a.target]))), None)
+				if isinstance(src, ast.Call) and attr_chain(src.func) == 're.compile' and src.args:
+					pat = const_str(src.args[0])
 	ok = False
+	if pat is None:
+		r.skip('reader-de-identify', di.where, 'de_identify no longer removes the indices with a constant regular expression (re.sub / a compiled pattern)')
 	if pat is not None:
 		try:
 			ok = re.sub(pat, '', 'a[0].b[12].c') == 'a.b.c' and re.sub(pat, '', 'a.b') == 'a.b'
@@ -109,7 +121,8 @@ def rule_a(rep: Report, idx: SourceIndex) -> None:
 			ok = ok and not _bounded(_rp.parse(pat)) and (bool(digit_runs) or re.sub(pat, '', 'x[' + '9' * 40 + ']') == 'x')
 		except re.error:
 			ok = False
-	r.check(ok, 'reader-de-identify', di.where, f'de_identify pattern {pat!r} does not strip exactly the [index] suffixes the writer produces')
+	if pat is not None:
+		r.check(ok, 'reader-de-identify', di.where, f'de_identify pattern {pat!r} does not strip exactly the [index] suffixes the writer produces')
 	fp = fm.func('ASTFinder.full_pathfy')
 	for fn in closure(fp):
 		joins = [c for c in calls(fn, 'EntryPath.join')]
